@@ -222,3 +222,9 @@ func KeepSymbolicBounds(on bool) {}
 // LiveBytesExcluding: like LiveBytes, not counting what is reachable from the given roots (the modelled
 // disk, harness bookkeeping).
 func LiveBytesExcluding(roots ...interface{}) int { return 0 }
+
+// PreemptAtLock: before the k-th lock acquisition attempt (Lock, RLock, TryLock; k = 0,1,...) made from now
+// on, f runs to completion - a context switch at a lock boundary. Schedules in which f would block on
+// a lock held by the suspended operation are dropped. PreemptRan reports whether f ran and disarms.
+func PreemptAtLock(k int, f func()) {}
+func PreemptRan() bool              { return false }
